@@ -221,6 +221,10 @@ NEUTRAL_FLAVOUR[11] = (
 SEED_FLAVOUR[12] = SEED_FLAVOUR[11]
 
 
+# round 13: round 11's robustness / lifecycle brief again with new authors, on the tree with the F9 repair (do the round-11/12 rules stay silent?)
+NEUTRAL_FLAVOUR[13] = NEUTRAL_FLAVOUR[11]
+
+
 def sh(cmd):
     return subprocess.run(cmd, shell=True, capture_output=True, text=True)
 
@@ -229,7 +233,7 @@ VERIF = os.path.dirname(os.path.dirname(os.path.abspath(__file__)))
 BASELINE = json.load(open("/root/.vp/BASELINE.json"))["stable_pass"]
 LETTERS = {3: {"a": "e", "b": "f"}, 4: {"a": "g", "b": "h"}, 5: {"a": "i", "b": "j"}, 6: {"a": "k", "b": "l", "c": "m", "d": "n"}, 7: {"a": "o", "b": "p"}, 8: {"a": "q", "b": "r"}, 10: {"a": "s", "b": "t"}, 11: {"a": "u", "b": "v"}, 12: {"a": "w", "b": "x"}}          # seeds: round -> variant -> suffix under /verif/seeded
 NUMBERS = {3: {"r1": "r8", "r2": "r9", "r3": "r10"}, 4: {"r1": "r11", "r2": "r12", "r3": "r13"}, 5: {"r1": "r14", "r2": "r15", "r3": "r16"},
-           6: {"r1": "r17", "r2": "r18", "r3": "r19", "r4": "r20", "r5": "r21"}, 7: {"r1": "r22", "r2": "r23", "r3": "r24"}, 8: {"r1": "r25", "r2": "r26"}, 9: {"r1": "r27", "r2": "r28"}, 11: {"r1": "r29", "r2": "r30"}}
+           6: {"r1": "r17", "r2": "r18", "r3": "r19", "r4": "r20", "r5": "r21"}, 7: {"r1": "r22", "r2": "r23", "r3": "r24"}, 8: {"r1": "r25", "r2": "r26"}, 9: {"r1": "r27", "r2": "r28"}, 11: {"r1": "r29", "r2": "r30"}, 13: {"r1": "r31", "r2": "r32"}}
 
 
 def variants(root):
